@@ -1,6 +1,7 @@
 CONSTANTS
   MaxCode = 65535
   NC = 3
+  NoUnicode = FALSE
 INIT Init
 NEXT Next
 INVARIANT TableOK
